@@ -57,30 +57,6 @@ def absorb(rep, scratch):
         rep.note(x)
 
 
-def check_register_numbers(rep, facts):
-    """R13.1: numeric register spellings in any base.  Decided on the dataflow of lookup_register (lexrules); where that cannot
-    follow the operand (e.g. the conversion lives in a method of a register-file object) the verdict of the interpreted encoders
-    is used when the shared engine offers one (encsum.register_spellings_normalised)."""
-    try:
-        lexrules.check_register_numbers(rep, facts)
-        return
-    except AnalysisError as e:
-        from .. import encsum
-        decide = getattr(encsum, 'register_spellings_normalised', None)
-        if decide is None:
-            raise
-        why = str(e)
-    ok, offenders = decide(facts)
-    if ok is None:
-        raise AnalysisError(why + ' (and the interpreted encoders saw no register operand)')
-    node = facts.funcs.get('lookup_register')
-    rep.count('register table lookups analysed', 1)
-    rep.check(ok, 'R13.1.registers', 'numeric register spellings in any base go through int(., 0) (interpreted encoders)',
-              lambda: Finding('R13.1.registers', 'lookup_register', node if node is not None else 'lookup_register',
-                              'hex / binary register numbers are not normalised with int(., 0) before the table lookup for {}'.format(offenders[:6]),
-                              line=getattr(node, 'lineno', None)), nontrivial=False)
-
-
 def shared_engine_rules(rep, repo, facts):
     doc = repo.text['docs/instruction_reference.rst']
     scratch = Report(rep.prop, rep.level, '')
@@ -108,6 +84,87 @@ def shared_engine_rules(rep, repo, facts):
         rep.ok('R13.6.normalised', 'all {} compression predicates compare register numbers, not spellings'.format(len(rel.factories)))
 
 
+NUMERIC_SPELLINGS = ['0', '7', '42', '-1', '+5', '0x1c', '0x1C', '0X1C', '0X1c', '-0xC', '-0Xc', '0b101', '0B101', '-0b11', '0o17', '0O17', '1_000', '0x_ff',
+                     '00', '0x', '0b', '0b2', '0o8', '12a', 'abc', '', 'x1', '1.5', '--1', '0xg']
+
+
+def check_numeric_literal_test(rep, facts):
+    """R13.7: the helper that tells numbers from names (`is_int`, used for branch / jump targets and shift amounts) accepts every
+    spelling of an integer that int(text, 0) accepts - upper- and lower-case radix prefixes and digits alike - and nothing else.
+    Decided when it *is* int(text, 0) under a try, or a regular expression constant (matched, as a constant, against a fixed list
+    of spellings with the stdlib engine); anything else is not understood."""
+    import re as _re
+    import ast as _ast
+    fn = facts.funcs.get('is_int')
+    if fn is None:
+        return
+    from ..astutil import dotted, unparse
+    params = [a.arg for a in fn.args.args]
+    calls = [n for n in _ast.walk(fn) if isinstance(n, _ast.Call)]
+    ints = [c for c in calls if dotted(c.func) == 'int' and c.args and isinstance(c.args[0], _ast.Name) and c.args[0].id in params]
+    rep.count('numeric-literal tests analysed')
+    if ints:
+        for c in ints:
+            base = c.args[1] if len(c.args) > 1 else next((k.value for k in c.keywords if k.arg == 'base'), None)
+            ok = isinstance(base, _ast.Constant) and base.value == 0
+            rep.check(ok, 'R13.7.numeric-literals', 'is_int decides with int(text, 0)',
+                      lambda c=c: Finding('R13.7.numeric-literals', 'is_int', c, 'numbers are recognised with {}: hexadecimal / binary / octal spellings are not integers to it, so `beq t0, zero, 0x1c` is read as a label'.format(unparse(c)), line=c.lineno))
+        in_try = all(any(isinstance(p, _ast.Try) for p in parents_of_node(c)) for c in ints)
+        if not in_try:
+            raise AnalysisError('is_int: int(text, 0) is not under a try (failure mode not understood)')
+        return
+    # regular expression form
+    pat = None
+    flags = 0
+    for c in calls:
+        d = dotted(c.func)
+        node = None
+        if d in ('re.match', 're.fullmatch', 're.search') and len(c.args) >= 2:
+            node, how = c.args[0], d.split('.')[1]
+            fl = c.args[2] if len(c.args) > 2 else next((k.value for k in c.keywords if k.arg == 'flags'), None)
+        elif isinstance(c.func, _ast.Attribute) and c.func.attr in ('match', 'fullmatch', 'search') and isinstance(c.func.value, _ast.Name) \
+                and c.func.value.id in facts.assign_nodes:
+            comp = facts.assign_nodes[c.func.value.id].value
+            if isinstance(comp, _ast.Call) and dotted(comp.func) == 're.compile' and comp.args:
+                node, how = comp.args[0], c.func.attr
+                fl = comp.args[1] if len(comp.args) > 1 else next((k.value for k in comp.keywords if k.arg == 'flags'), None)
+        if node is not None and isinstance(node, _ast.Constant) and isinstance(node.value, str):
+            pat = (node.value, how, c)
+            if fl is not None:
+                names = {n.attr for n in _ast.walk(fl) if isinstance(n, _ast.Attribute)} | {n.id for n in _ast.walk(fl) if isinstance(n, _ast.Name)}
+                if names & {'IGNORECASE', 'I'}:
+                    flags |= _re.IGNORECASE
+                if names - {'IGNORECASE', 'I', 're'}:
+                    raise AnalysisError('is_int: regular expression flags {} not understood'.format(sorted(names)))
+    if pat is None:
+        raise AnalysisError('is_int decides neither with int(text, 0) nor with a regular expression constant (not understood)')
+    rx = _re.compile(pat[0], flags)
+    wrong = []
+    for s_ in NUMERIC_SPELLINGS:
+        try:
+            int(s_, 0)
+            want = True
+        except ValueError:
+            want = False
+        got = getattr(rx, pat[1])(s_) is not None
+        if got != want:
+            wrong.append((s_, want))
+    if wrong:
+        s_, want = wrong[0]
+        rep.fail(Finding('R13.7.numeric-literals', 'is_int', pat[2],
+                         'the pattern {!r} {} {!r}, which int(text, 0) {}: the same number spelled that way is treated differently ({} such spellings in the sample)'.format(
+                             pat[0], 'rejects' if want else 'accepts', s_, 'accepts' if want else 'rejects', len(wrong)), line=pat[2].lineno), instance='numeric literal spellings')
+        return
+    raise AnalysisError('is_int uses the pattern {!r}: it agrees with int(text, 0) on the sample spellings, equivalence not established'.format(pat[0]))
+
+
+def parents_of_node(node):
+    p = getattr(node, '_parent', None)
+    while p is not None:
+        yield p
+        p = getattr(p, '_parent', None)
+
+
 def run(repo, tier):
     facts = Facts(repo.asm)
     rep = Report('C13', LEVEL,
@@ -129,7 +186,20 @@ def run(repo, tier):
     lexrules.check_lexer(rep, facts)
     skips_blank = lexrules.check_reader(rep, facts)
     lexrules.check_handover(rep, facts, skips_blank)
-    check_register_numbers(rep, facts)
+    try:
+        lexrules.check_register_numbers(rep, facts)
+    except AnalysisError as e:
+        # the lookup is not written inside lookup_register itself (a helper class / method): ask the interprocedural encoder
+        # interpreter whether every register operand is converted with int(., 0) before the table lookup
+        from ..encsum import register_spellings_normalised
+        verdict, bad = register_spellings_normalised(facts)
+        if verdict is None:
+            raise
+        rep.count('register table lookups analysed')
+        rep.check(verdict, 'R13.1.registers', 'numeric register spellings in any base go through int(., 0) (encoder summaries)',
+                  lambda: Finding('R13.1.registers', 'lookup_register', 'register lookup', 'register operands of {} reach the register table without int(., 0): hex / binary register numbers are not recognised'.format(
+                      sorted({m for m, p in bad})[:6]), line=facts.funcs['lookup_register'].lineno if 'lookup_register' in facts.funcs else 1), nontrivial=False)
+    check_numeric_literal_test(rep, facts)
     try:
         shared_engine_rules(rep, repo, facts)
     except AnalysisError as e:
